@@ -835,6 +835,13 @@ func errReturnedDeep(p *Prog, ci ssa.CallInstruction) bool {
 	if !ok {
 		return false
 	}
+	if refs := v.Referrers(); refs != nil {
+		for _, r := range *refs {
+			if ex, isE := r.(*ssa.Extract); isE && ex.Type().String() == "error" {
+				v = ex
+			}
+		}
+	}
 	ok2, _ := errPropagated(p, v)
 	return ok2
 }
